@@ -15,7 +15,8 @@ Theorem C03_unverified_frame :
   forall (H : N -> N) (digest : N -> N -> N) (rule_validate : N -> N -> N -> N -> N -> option bool)
          (recover : N -> N -> option N),
   forall c e idx s st ib pd t s' rc cnt,
-  d_stale_changer c = false -> d_fee_after_body (x_fees c) = false ->
+  d_stale_changer c = false -> d_prev_from_memory c = false -> d_revert_drops_tombstone c = false ->
+  d_fee_after_body (x_fees c) = false ->
   verify_proof H digest rule_validate recover st ib pd <> VOk ->
   apply_tx c e idx s (checked H digest rule_validate recover st ib pd t) = (s', rc, cnt) ->
   r_ok rc = false /\
